@@ -96,12 +96,17 @@ def berIssued (cert : Bytes) : Option (List (Bytes × Bytes)) :=
     | none => some []
   | _ => none
 
+/-- the content octets of an OBJECT IDENTIFIER element -/
+def oidContentOf : Asn1 → Option Bytes
+  | .prim 0 6 c => some c
+  | _ => none
+
 /-- the purposes named by extended-key-usage values, each of which has to be one SEQUENCE of
     object identifiers and nothing else; as a duplicate-free sorted list of identifier contents -/
 def berPurposes (vals : List Bytes) : Option (List Bytes) :=
   (vals.mapM (fun (v : Bytes) =>
     match elementsBer v with
-    | some [.cons 0 16 oids] => oids.mapM (fun (t : Asn1) => match t with | .prim 0 6 c => some c | _ => none)
+    | some [.cons 0 16 oids] => oids.mapM oidContentOf
     | _ => none)).map (fun (ls : List (List Bytes)) => ls.flatten.eraseDups)
 
 def valuesOf (l : List (Bytes × Bytes)) (o : Bytes) : List Bytes :=
